@@ -14,8 +14,8 @@
 EXTENDS LOGen, LOPivChol, Json
 
 CONSTANTS Tier, Seed, Part, NParts
-VARIABLES desc, term, dense, mems, m, pc
-vars == <<desc, term, dense, mems, m, pc>>
+VARIABLES desc, term, dense, mems, m, pc, stopat
+vars == <<desc, term, dense, mems, m, pc, stopat>>
 
 \* ---- instance families (small integers: the rational residuals stay far inside 32 bits) ----------------------
 Sm(s, seed) == T_Fill(s, seed, -1, 1)
@@ -80,42 +80,46 @@ Init ==
                   tolname |-> IF ti <= Len(Tols) THEN TolName[ti] ELSE "between-steps",
                   dmode |-> DModes[di], minsize |-> minsz, seed |-> i * 7 + 1, sden |-> sd,
                   id |-> ((((i * 8 + k) * 8 + ti) * 8 + di) * 2 + (IF minsz = 0 THEN 0 ELSE 1)) * 2 + (IF sd = 1 THEN 0 ELSE 1)]
-  /\ term = <<>> /\ dense = <<>> /\ mems = <<>> /\ m = 0 /\ pc = "build"
+  /\ term = <<>> /\ dense = <<>> /\ mems = <<>> /\ m = 0 /\ pc = "build" /\ stopat = -1
 
 Build ==
   /\ pc = "build"
   /\ term' = InstTerm(CHOOSE i \in 1..Len(Insts) : Insts[i].name = desc.inst, desc.seed)
   /\ dense' = Op_Denote(term')
   /\ mems' = LET idxs == R_BatchIdx(desc.b) IN [q \in 1..Len(idxs) |-> PC_Member(R_Rows(dense', idxs[q]), desc.sden)]
-  /\ m' = 0
+  /\ m' = 0 /\ stopat' = -1
   /\ IF desc.ti <= Len(Tols) THEN pc' = "loop" /\ UNCHANGED desc
      ELSE LET es == PC_ErrSeq(R_Rows(dense', R_BatchIdx(desc.b)[1])) j == desc.ti - Len(Tols)
           IN IF es[j] = es[j + 1] \/ Q_IsZero(es[j + 1]) THEN pc' = "skip" /\ UNCHANGED desc        \* no tolerance fits strictly between
              ELSE pc' = "loop" /\ desc' = [desc EXCEPT !.tol = PC_Mid(es[j], es[j + 1])]
 
 MaxIter == T_Min(desc.k, desc.n)
+\* The loop of the code leaves at the first m with ~PC_Continue (stopat).  The property only says that it may not leave EARLIER than that
+\* ("stops early only once the residual trace has dropped below the tolerance"), so the model keeps stepping up to the rank bound and
+\* prints every state from stopat on: a result with more columns is still a behaviour of the specification.
 Step ==
-  /\ pc = "loop"
-  /\ PC_Continue(mems, m, MaxIter, desc.tol)
+  /\ pc = "loop" /\ m < MaxIter
   /\ \E ch \in [1..Len(mems) -> 1..desc.n] :
        /\ \A q \in 1..Len(mems) : ch[q] \in PC_Cands(mems[q])
        /\ mems' = [q \in 1..Len(mems) |-> PC_Advance(mems[q], ch[q])]
-  /\ m' = m + 1 /\ UNCHANGED <<desc, term, dense, pc>>
+  /\ m' = m + 1
+  /\ stopat' = IF stopat = -1 /\ ~PC_Continue(mems', m + 1, MaxIter, desc.tol) THEN m + 1 ELSE stopat
+  /\ pc' = "emit"
+  /\ UNCHANGED <<desc, term, dense>>
 
 QFlat(S) == [q \in 1..(Len(S) * Len(S)) |-> S[((q - 1) \div Len(S)) + 1][((q - 1) % Len(S)) + 1]]
-Done ==
-  /\ pc = "loop"
-  /\ ~PC_Continue(mems, m, MaxIter, desc.tol)
-  /\ pc' = "done"
-  /\ PrintT(ToJson([chk |-> "C10", desc |-> desc, path |-> Op_Path(term), term |-> term, dense |-> dense, r |-> m,
+Emit ==
+  /\ pc = "emit"
+  /\ pc' = IF m < MaxIter THEN "loop" ELSE "done"
+  /\ (stopat # -1 => PrintT(ToJson([chk |-> "C10", desc |-> desc, path |-> Op_Path(term), term |-> term, dense |-> dense, r |-> m, stopat |-> stopat,
         dterm |-> IF desc.dmode = "none" THEN <<>> ELSE DTerm(desc.dmode, desc.n, desc.b, desc.seed),
         members |-> [q \in 1..Len(mems) |->
            [piv |-> [t \in 1..Len(mems[q].piv) |-> mems[q].piv[t] - 1], deg |-> mems[q].deg,
             resid |-> LET F == QFlat(mems[q].S) IN [num |-> [t \in 1..Len(F) |-> F[t][1]], den |-> [t \in 1..Len(F) |-> F[t][2]]],
-            nvalid |-> mems[q].nvalid, errs |-> mems[q].errs]]]))
-  /\ UNCHANGED <<desc, term, dense, mems, m>>
+            nvalid |-> mems[q].nvalid, errs |-> mems[q].errs]]])))
+  /\ UNCHANGED <<desc, term, dense, mems, m, stopat>>
 
-Next == Build \/ Step \/ Done
+Next == Build \/ Step \/ Emit
 Spec == Init /\ [][Next]_vars
 
 \* ---- the property, on the model --------------------------------------------------------------------------
@@ -124,8 +128,10 @@ InvZeroOnPivots == \A q \in 1..Len(mems) : PC_ZeroOnPivots(mems[q])
 InvGreedy == \A q \in 1..Len(mems) : PC_Greedy(mems[q])
 InvExactAtFull == \A q \in 1..Len(mems) : PC_ExactAtFull(mems[q])
 InvRank == m <= MaxIter \/ pc = "build"
+InvStopAt == stopat = -1 \/ (stopat >= 1 /\ stopat <= m)
 \* leaving early (fewer steps than the budget) only when every member's relative residual trace is within the tolerance
-InvEarlyStop == (pc = "done" /\ m < MaxIter) => \A q \in 1..Len(mems) : Q_Leq(Q_Div(PC_Trace(mems[q].S, PC_Remaining(desc.n, mems[q].piv)), mems[q].orig), desc.tol)
-TraceMonotone == [][pc = "loop" /\ pc' = "loop" =>
+\* (at the step where the code's rule lets the loop leave before the rank bound, every member is within the tolerance)
+InvEarlyStop == (pc = "emit" /\ stopat = m /\ m < MaxIter) => \A q \in 1..Len(mems) : Q_Leq(Q_Div(PC_Trace(mems[q].S, PC_Remaining(desc.n, mems[q].piv)), mems[q].orig), desc.tol)
+TraceMonotone == [][pc = "loop" /\ pc' = "emit" =>
                      \A q \in 1..Len(mems) : Q_Leq(PC_Trace(mems'[q].S, 1..desc.n), PC_Trace(mems[q].S, 1..desc.n))]_vars
 =============================================================================
